@@ -470,7 +470,7 @@ func checkC05(t *testing.T, job *Job, res *Result) {
 	}
 	res.Rule = "engine S part: 2-3 concurrent deploys of different services whose bindings overlap (identical host, default host, one shared of several, shared path, wildcard, owned by a third service, redeploy moving onto the pair); every schedule within the bounds; oracle: successful deploys pairwise conflict-free, every rejection justified by a successful owner, every owned pair routes to its owner, losers leave nothing routed, list = winners; plus the removal of a service racing with the deploy (or host-moving redeploy) of an unrelated one, followed sequentially by deploys that try to take the pair just bound (must be refused) and the pairs just freed (must succeed); plus a redeploy of a service (keeping or extending its bindings) racing with 'remove it; deploy another service on its pair'"
 	if job.Replay == nil || job.Replay.Engine == "S" {
-		runS(t, job, res, "C05", scs, b, 0)
+		runS(t, job, res, "C05", withReversed(scs), b, 0)
 	}
 	if job.Replay == nil || job.Replay.Engine == "H" {
 		exploreH(t, job, res, c05HSpec(tier))
